@@ -215,6 +215,8 @@ def generated(ctx, agg):
             continue
         for (text, blocks), rep in zip(cases, reps[1:]):
             ctx.case(digest(text, mode), {"mode": mode, "input_blocks": blocks} if rep["id"] in (0, 1) else None)
+            if worker.timed_out(ctx, rep):
+                continue
             if "ok" not in rep:
                 ctx.violation("C05/generated/error/" + mode, "%s builder failed on a generated profile: %r" % (mode, rep), {"text": text, "mode": mode})
                 continue
